@@ -20,11 +20,13 @@ func init() {
 	core.Register(&core.Check{
 		ID:    prop,
 		Level: "exploration",
-		Rule: "layering: every choice of <=3 (thorough: <=4) present sources out of {chart defaults, parent section, -f file1, -f file2, --set-json (object and key=json syntax), --set, --set-string, " +
-			"--set-file, --set-literal} x every tree of the family each source can express (key a: 4 leaves + all sub-maps over {absent,S1,L,null}^2, plus 5 trees with key b) x chart trees of 1, 2 and 3 levels; " +
-			"user sources repeat their tree under sub. and sub.subsub.; every value is tagged with source and scope; a case is distinct by (sources, trees) and non-trivial when at least two sources speak about the same top-level key. " +
-			"--set grammar: every path (key in {a,b,'a.b','c,d','e=f'} then <=2 (thorough <=3) more keys/indexes [0..2]) x 12 (22) value ASTs x 4 entry points x 6+4*(len-1) base maps x 3 contexts; distinct by the full tuple. " +
-			"no-mutation: deep snapshots of all chart Values and the caller map around ToRenderValues, CoalesceValues, MergeValues and after overwriting every node of each result, in every layering case",
+		Rule: "layering: every choice of <=3 present sources out of {chart defaults, parent section, -f file1, -f file2, --set-json (object and key=json syntax), --set, --set-string, " +
+			"--set-file, --set-literal} x every tree of the family each source can express. quick family (20 trees over keys {a,b}): a in {string, number, list, null, every sub-map over {absent,string,null}^2, " +
+			"two sub-maps holding a list}, plus 5 trees in which b is a bystander or competes; thorough family (35 trees): every sub-map over {absent,string,list,null}^2, depth-3 chains, b-side shapes; " +
+			"thorough adds every choice of 4 sources over a 12-tree core family. Chart trees: root / root>sub / root>sub>subsub for tuples of <=2 sources, 1 and 3 levels (2 and 3 with a parent section) for larger tuples; " +
+			"user sources repeat their tree under sub. and sub.subsub.; every value is tagged with its source and scope. A case is distinct by (sources, trees) and non-trivial when two sources speak about the same top-level key. " +
+			"--set grammar: every path (key in {a,b,'a.b','c,d','e=f'} followed by <=2 (thorough <=3) keys or indexes [0..2]) x 12 (22) value ASTs x 4 entry points x (6+4*(len-1)) base maps x 3 contexts (alone, before, after another pair); distinct by the full tuple. " +
+			"no-mutation: deep snapshots of all chart Values and of the caller's map around ToRenderValues (every layering case) and CoalesceValues / chartutil.MergeValues (cases of <=2 sources), and again after overwriting every node of each result",
 		Run:    run,
 		Replay: replay,
 		Assumptions: []string{
@@ -188,7 +190,7 @@ func runLayerTuple(c *core.Ctx, w *work, tuple layerCase, fam [nSrc][]srcOpt, se
 		if countDistinct {
 			c.Distinct("layer|" + tuple.String())
 		} else {
-			c.Count("nontrivial_tuples_of_4_sources_not_hashed", 1)
+			c.Count("tuples_of_4_sources_not_hashed", 1)
 		}
 	}
 	nsrc := 0
